@@ -616,6 +616,57 @@ var c06Doms = [][4]string{
 	{"a.example", "a.example", "a.example", "a.example"},
 	{"a.example:8448", "b.example", "[::1]:8448", "1.2.3.4"},
 	{"a.example", "a.example:8448", "A.example", "a.exampl"},
+	// 9-11: the authorising user's server carries an explicit port / is an IPv6 literal with a port /
+	// is the sender's host without the sender's port: host and host:port are DIFFERENT servers
+	{"a.example", "b.example", "c.example", "d.example:8448"},
+	{"a.example", "b.example", "c.example", "[2001:db8::1]:8448"},
+	{"a.example:8448", "b.example", "c.example:8448", "a.example"},
+}
+
+// c06PortPattern: index of the first pattern of the host-versus-host:port family
+const c06PortPattern = 9
+
+// the names a server name must NOT be confused with: the same host without the port (and, for an
+// IPv6 literal, also without the brackets)
+func c06HostOnly(name string) []string {
+	var out []string
+	host := name
+	if strings.HasPrefix(name, "[") {
+		if i := strings.Index(name, "]"); i > 0 {
+			host = name[:i+1]
+			if host != name {
+				out = append(out, host)
+			}
+			out = append(out, name[1:i])
+		}
+		return out
+	}
+	if i := strings.LastIndex(name, ":"); i > 0 {
+		out = append(out, name[:i])
+	}
+	return out
+}
+
+// candidates for the valid-signer subsets: the distinct servers of the pattern, plus (port family)
+// their port-less look-alikes
+func c06Candidates(di int, d [4]string) []string {
+	uniq := c06DomUniq(d)
+	if di < c06PortPattern {
+		return uniq
+	}
+	out := append([]string{}, uniq...)
+	for _, x := range uniq {
+		for _, h := range c06HostOnly(x) {
+			dup := false
+			for _, y := range out {
+				dup = dup || y == h
+			}
+			if !dup {
+				out = append(out, h)
+			}
+		}
+	}
+	return out
 }
 
 func c06DomUniq(d [4]string) []string {
@@ -710,7 +761,8 @@ func c06GenScripted(c *Ctx) {
 			for di, d := range c06Doms {
 				// quick tier: a third of the domain patterns per (version, kind), rotating; the first
 				// (all different) and the all-equal one always
-				if !c.Thorough() && di != 0 && di != 6 && (di+vi+ki)%3 != 0 {
+				portFamily := di >= c06PortPattern && strings.Contains(k.name, "restricted-join")
+				if !c.Thorough() && di != 0 && di != 6 && (di+vi+ki)%3 != 0 && !portFamily {
 					continue
 				}
 				t := k.mk(d)
@@ -720,6 +772,9 @@ func c06GenScripted(c *Ctx) {
 				c06AddHash(m)
 				ev := c06JSON(m)
 				uniq := c06DomUniq(d)
+				if portFamily {
+					uniq = c06Candidates(di, d)
+				}
 				for mask := 0; mask < 1<<len(uniq); mask++ {
 					var valid [][]byte
 					for i, s := range uniq {
@@ -952,12 +1007,16 @@ func c06GenMalformed(c *Ctx) {
 // C. real key ring: every required signer in turn gets every fault while the others are good
 func c06GenKeyring(c *Ctx) {
 	faults := []string{"good", "absent", "corrupt", "otherkey", "nokey", "expired", "expiredlater", "until", "untileq", "two", "algo"}
-	doms := [][4]string{c06Doms[0], c06Doms[1], c06Doms[2], c06Doms[6]}
+	doms := [][4]string{c06Doms[0], c06Doms[1], c06Doms[2], c06Doms[6], c06Doms[9], c06Doms[10], c06Doms[11]}
 	n := 0
 	for vi, ver := range c06Versions {
 		for ki, k := range c06Kinds {
 			for di, d := range doms {
-				if !c.Thorough() && di != 0 && (di+vi+ki)%4 != 0 {
+				portFamily := di >= 4
+				if portFamily && !strings.Contains(k.name, "restricted-join") && !c.Thorough() {
+					continue
+				}
+				if !c.Thorough() && di != 0 && (di+vi+ki)%4 != 0 && !portFamily {
 					continue
 				}
 				t := k.mk(d)
@@ -1010,6 +1069,24 @@ func c06GenKeyring(c *Ctx) {
 						}
 						run(sc, "past", "signer "+s+" "+f)
 						c.Count("keyring/fault=" + f)
+					}
+				}
+				// host versus host:port: the port-less namesake signs instead of the required server
+				if portFamily {
+					for _, x := range uniq {
+						for _, h := range c06HostOnly(x) {
+							if _, taken := base[h]; taken {
+								continue
+							}
+							sc := map[string]string{}
+							for _, y := range uniq {
+								sc[y] = "good"
+							}
+							sc[x] = "absent"
+							sc[h] = "good"
+							run(sc, "past", "signed by "+h+" instead of "+x)
+							c.Count("keyring/namesake")
+						}
 					}
 				}
 				// random assignments
